@@ -261,12 +261,14 @@ type Options struct {
 	Merge         bool // guarded merging of pure regions (off by default: it trades paths for harder formulas)
 	Verbose       bool
 	Footprint     bool
-	CrossSolver   string // second solver for verdict cross-checking ("" = off)
+	CrossSolver   string    // second solver for verdict cross-checking ("" = off)
+	deadline      time.Time // set by Explore from Wall: no solver call is started after it
 }
 
 func (w *Worker) RunPath(fn *ssa.Function, item WorkItem, o *Options) (res *PathResult) {
 	p := newPath(item, w.Solver, fn.Name(), o.MaxSteps)
 	p.noMerge = !o.Merge
+	p.deadline = o.deadline
 	p.funcs = map[string]bool{}
 	if o.Footprint {
 		p.foot = newFootprint()
@@ -371,7 +373,7 @@ type HarnessResult struct {
 	SolverSec    float64
 	SolverErrs   int
 	CrossChecked int
-	Retried      int // queries answered only after a retry with a longer time limit
+	Retried      int   // queries answered only after a retry with a longer time limit
 	NonTrivial   int64 // paths with >=1 symbolic decision that reached >=1 check
 	Unreached    []string
 }
@@ -379,6 +381,9 @@ type HarnessResult struct {
 // Explore runs the harness to exhaustion of its path tree (or a budget).
 func (P *Program) Explore(fn *ssa.Function, o Options) *HarnessResult {
 	t0 := time.Now()
+	if o.Wall > 0 {
+		o.deadline = t0.Add(o.Wall)
+	}
 	hr := &HarnessResult{Harness: fn.Name(), Funcs: map[string]bool{}}
 	hr.Stats.ReachLabels = map[string]bool{}
 	hr.Stats.CheckSites = map[string]bool{}
